@@ -8,7 +8,7 @@ from rich.errors import MarkupError, MissingStyle, StyleSyntaxError
 from rich.markup import render
 from rich.text import Text
 
-from vf.obl import xh
+from vf.obl import symx, xh
 from vf.common import color_parse, native, over, pin, style_parse
 
 ARABIC3 = "\u0663"      # ARABIC-INDIC DIGIT THREE: matches \d, int() accepts it
@@ -36,10 +36,12 @@ for _n in (4, 5):
 for _n in (0, 1, 2, 3):
     _mk_color("index", "color(", ")", "19" + ARABIC3, _n, ("quick", "thorough"), 300)
 _mk_color("index", "color(", ")", "19" + ARABIC3, 4, ("thorough",), 1200)
+_mk_color("hexq", "#", "", "0g", 6, ("quick", "thorough"), 600)
 for _n in (5, 6, 7):
-    _mk_color("hex", "#", "", "0fg", _n, ("quick", "thorough") if _n == 6 else ("thorough",), 900)
-for _n in (1, 2, 3):
+    _mk_color("hex", "#", "", "0fg", _n, ("thorough",), 2400)
+for _n in (1, 2):
     _mk_color("free", "", "", "rgb(),#1", _n, ("quick", "thorough"), 600)
+_mk_color("free", "", "", "rgb(),#1", 3, ("thorough",), 1500)
 _mk_color("free", "", "", "rgb(),#1", 4, ("thorough",), 3000)
 
 
@@ -62,17 +64,14 @@ def _style_ok(ks) -> bool:
     return True
 
 
-def _pre_style(k0: int, k1: int, k2: int, k3: int) -> bool:
-    return all(0 <= k < len(_STOK) for k in (k0, k1, k2, k3))
-
-
-@xh("C14-style-tokens", pre=_pre_style, timeout=1500, kind="P",
-    functions=["rich/style.py:Style.parse", "rich/console.py:Console.get_style", "rich/color.py:Color.parse"],
-    bounds="every definition of 4 words from %r (solver-enumerated, native): Style.parse raises only StyleSyntaxError, "
-           "Console.get_style only MissingStyle, get_style(default=) nothing" % (_STOK,))
-def c14_style(k0: int, k1: int, k2: int, k3: int) -> bool:
-    ks = [pin(k, 0, len(_STOK) - 1) for k in (k0, k1, k2, k3)]
-    return native(_style_ok, ks)
+@symx("C14-style-tokens", timeout=1500, kind="P",
+      functions=["rich/style.py:Style.parse", "rich/console.py:Console.get_style", "rich/color.py:Color.parse"],
+      bounds="every definition of 1..4 words from %r (solver-enumerated, native): Style.parse raises only StyleSyntaxError, "
+             "Console.get_style only MissingStyle, get_style(default=) nothing" % (_STOK,))
+def c14_style(e):
+    n = int(e.mk("n", 1, 4))
+    ks = [int(e.mk("k%d" % i, 0, len(_STOK) - 1)) for i in range(n)]
+    return _style_ok(ks)
 
 
 # --- markup render, AnsiDecoder, Text, print(markup=False) over symbolic strings (S) --------------------------------
@@ -123,15 +122,13 @@ def _print_ok(s, soft) -> bool:
 _PRINT_SIGMA = "a [\n\t\u4e2d\u0301\x1b\r:\\"
 
 
-def _pre_print(c0: int, c1: int, c2: int, c3: int, soft: bool) -> bool:
-    return all(0 <= c <= len(_PRINT_SIGMA) for c in (c0, c1, c2, c3))
-
-
-@xh("C14-print-plain", pre=_pre_print, timeout=1500, kind="P",
-    functions=["rich/console.py:Console.print", "rich/text.py:Text.__init__", "rich/console.py:Console.render_str"],
-    bounds="Console.print(s, markup=False) and print(Text(s)) for every s of up to 4 characters over %r (solver-enumerated, "
-           "native), width 10, soft_wrap on/off: never raises" % (_PRINT_SIGMA,))
-def c14_print(c0: int, c1: int, c2: int, c3: int, soft: bool) -> bool:
-    cs = [pin(c, 0, len(_PRINT_SIGMA)) for c in (c0, c1, c2, c3)]
-    s = "".join(_PRINT_SIGMA[c] for c in cs if c < len(_PRINT_SIGMA))
-    return native(_print_ok, s, True if soft else False)
+@symx("C14-print-plain", timeout=1500, kind="P",
+      functions=["rich/console.py:Console.print", "rich/text.py:Text.__init__", "rich/console.py:Console.render_str"],
+      bounds="Console.print(s, markup=False) and print(Text(s)) for every s of 0..4 characters over %r (solver-enumerated, "
+             "native), width 10, soft_wrap on/off: never raises" % (_PRINT_SIGMA,))
+def c14_print(e):
+    n = int(e.mk("n", 0, 4))
+    cs = [int(e.mk("c%d" % i, 0, len(_PRINT_SIGMA) - 1)) for i in range(n)]
+    soft = e.mkbool("soft_wrap")
+    s = "".join(_PRINT_SIGMA[c] for c in cs)
+    return _print_ok(s, True if soft else False)
